@@ -121,7 +121,8 @@ CHECKS = {
         parts=[part("start", "core", "reader", "TestVerifC13Start", shards=(12, 16), budget=(150, 900), gomaxprocs=1),
                part("lookup", "core", "reader", "TestVerifC13Lookup", shards=(4, 8), budget=(120, 600)),
                part("listing", "core", "reader", "TestVerifC13Listing", shards=(12, 16), budget=(150, 900), gomaxprocs=1),
-               part("duplicates", "core", "reader", "TestVerifC13Duplicates", shards=(12, 16), budget=(150, 900), gomaxprocs=1)],
+               part("duplicates", "core", "reader", "TestVerifC13Duplicates", shards=(12, 16), budget=(150, 900), gomaxprocs=1),
+               part("fullstack", "server", ".", "TestVerifC13Fullstack", shards=(16, 16), budget=(150, 1200), gomaxprocs=1)],
     ),
     "C10": dict(
         level="model_checking", engine="seq",
